@@ -61,6 +61,8 @@ def truth(I, v):
         return True
     if isinstance(v, frozenset):
         return bool(v)
+    if type(v).__name__ in ('Match', 'Pattern'):
+        return True
     raise Unsupported(f'truth of {type(v).__name__}')
 
 
@@ -938,6 +940,25 @@ def arr_setitem(I, a, k, v):
         a.fn = fn
         propagate_view_write(I, a)
         return
+    if isinstance(k, (VList, list)) and len(a.shape) == 1:
+        # integer-array ("fancy") assignment with concrete indices: element-wise
+        idxs = list(k.l if isinstance(k, VList) else k)
+        if not all(isinstance(i, int) and not isinstance(i, bool) for i in idxs):
+            raise Unsupported('fancy index assignment with symbolic indices')
+        old = a.fn
+        vals = [(v.fn((j,)) if isinstance(v, Arr) and v.shape != () else (v.fn(()) if isinstance(v, Arr) else v)) for j in range(len(idxs))]
+        table = dict(zip(idxs, vals))
+
+        def fnf(idx):
+            i = idx[0]
+            if isinstance(i, Sym):
+                r = old(idx)
+                for j, val in table.items():
+                    r = ite(I, mk(zint(i) == j, 'bool'), val, r)
+                return r
+            return table.get(i, None) if i in table else old(idx)
+        a.fn = fnf
+        return
     if not isinstance(k, tuple):
         k = (k,)
     k = tuple(k) + tuple(VSlice(None, None) for _ in range(len(a.shape) - len(k)))
@@ -1082,6 +1103,10 @@ def _straddle_possible(rope, item):
 
 def rope_equal(I, a, b):
     pa, pb = rope_parts(a), rope_parts(b)
+    for x, y in ((pa, pb), (pb, pa)):
+        if len(x) == 1 and isinstance(x[0], Fmt) and x[0].kind == 'opaque' and isinstance(x[0].value, tuple) \
+                and x[0].value[0] in ('binary', 'gzip', 'slice-of-binary') and all(isinstance(q, str) for q in y):
+            return False        # raw binary / compressed bytes are not region text (A-OS)
     if len(pa) == len(pb) and all((isinstance(x, str) and isinstance(y, str) and x == y) or (x is y) for x, y in zip(pa, pb)):
         return True
     if isinstance(a, str) or isinstance(b, str):
@@ -1100,6 +1125,9 @@ def rope_equal(I, a, b):
 
 def rope_getitem(I, r, k):
     parts = r.parts
+    if len(parts) == 1 and isinstance(parts[0], Fmt) and parts[0].kind == 'opaque' and isinstance(parts[0].value, tuple) \
+            and parts[0].value[0] in ('binary', 'gzip', 'slice-of-binary') and isinstance(k, VSlice):
+        return Rope([Fmt(('slice-of-binary', parts[0].id), None, 'opaque')])
     if isinstance(k, VSlice):
         s = pyslice(I, k)
         if s.step not in (None, 1):
@@ -1173,6 +1201,8 @@ def format_value(I, v, spec, conv):
         raise Unsupported(f'format spec {spec!r} on symbolic number')
     if isinstance(v, Rope):
         raise Unsupported('format spec on symbolic text')
+    if v is None or isinstance(v, (bool, tuple, VList, VDict)):
+        I.throw('TypeError', f'unsupported format string passed to {host_type_name(v)}.__format__')
     raise Unsupported(f'format of {type(v).__name__}')
 
 
